@@ -225,7 +225,7 @@ CHECKS = {
         "timeout": {"quick": 400, "thorough": 2400},
         "jobs": [
             job("mutate", "c05", ["TestC05Mutate"], 2500, 60000, 3, 10, pending=True),
-            job("schema", "c05", ["TestC05Schema"], 1500, 30000, 2, 6, pending=True),
+            job("schema", "c05", ["TestC05Schema"], 2500, 40000, 3, 8, pending=True),
             job("driver", "c05", ["TestC05Driver"], 300, 6000, 1, 4),
             job("raw", "c05", ["TestC05Raw"], 3000, 100000, 1, 2, pending=True),
             job("fuzz", "c05", ["FuzzC05Image"], 1, 1, 1, 1, fuzz={"target": "FuzzC05Image", "convert": "TestC05FromFuzzFile", "time": {"quick": 0, "thorough": 420}}),
@@ -347,11 +347,12 @@ CHECKS = {
                  "plus database/sql result sets read for k rows then closed / cancelled / drained. Non-trivial = at least one side action ran. Distinct = fingerprint of the spec."),
         "assumptions": ["Linux POSIX record locks; system libsqlite3 (3.40.1) is the writer"],
         "min_nontrivial": {"quick": 150, "thorough": 3000},
-        "required_classes": ["exit:normal", "exit:stop", "exit:error-column", "exit:fault", "exit:panic", "side:commit-attempt", "side:peer-hold", "side:other-file", "side:same-process-read", "op:IndexedSelect-wr", "driver:cancel", "writer:open-txn", "writer:hot-journal", "writer:raw-exclusive"],
+        "required_classes": ["exit:normal", "exit:stop", "exit:error-column", "exit:fault", "exit:panic", "side:commit-attempt", "side:peer-hold", "side:other-file", "side:same-process-read", "op:IndexedSelect-wr", "driver:cancel", "writer:open-txn", "writer:hot-journal", "writer:raw-exclusive", "concurrent:procs="],
         "timeout": {"quick": 400, "thorough": 2400},
         "jobs": [
             job("held", "c06", ["TestC06Held"], 220, 4000, 3, 10),
             job("driver", "c06", ["TestC06Driver"], 120, 1500, 1, 3),
+            job("concurrent", "c06", ["TestC06Concurrent"], 25, 300, 2, 6),
         ],
     },
     "C09": {
@@ -363,14 +364,14 @@ CHECKS = {
         "manifest": {
             "technique": "crash-point enumeration inside the property-based harness: rapid generates base databases and write transactions; a real SQLite writer process (small cache, so dirty pages spill before commit; journal modes DELETE/TRUNCATE/PERSIST) runs under an LD_PRELOAD shim that numbers its pwrite/write/ftruncate/fsync/fdatasync/unlink calls and is killed before its k-th one for every k, plus a half-written variant of every write; the files left behind are read by sqlittle and, on a copy, by real SQLite after its own recovery",
             "level_text": "Exhaustive in k (every system-call boundary of the writer on the database and its journal, plus torn halves of every write) per generated (base, transaction, journal mode, page size); oracle: sqlittle errors, or returns exactly SQLite's post-recovery content; and when no recovery is pending (journal absent, empty or zero-headered) sqlittle must read without error. Transactions are sampled.",
-            "level_note": "Crash points are system-call boundaries of the stock unix VFS with one sector size (512 here); reordering of unsynced writes is not modelled. SQLite 3.40.1 performs the reference recovery.",
+            "level_note": "Crash points are system-call boundaries of the stock unix VFS with sector sizes 512 and 4096 (psow=0) and the writer's synchronous setting FULL / NORMAL / EXTRA / OFF (OFF: journal never synced, record count 0xFFFFFFFF); reordering of unsynced writes is not modelled. SQLite 3.40.1 performs the reference recovery.",
         },
-        "rule": ("transaction: 1-4 statements from a pool of UPDATE/DELETE/INSERT..SELECT/CREATE/DROP/ALTER on a database of 30-150 rows (rowid table + index + WITHOUT ROWID table), cache_size 3, synchronous FULL; "
+        "rule": ("transaction: 1-4 statements from a pool of UPDATE/DELETE/INSERT..SELECT/CREATE/DROP/ALTER on a database of 30-150 rows (rowid table + index + WITHOUT ROWID table), cache_size 3, synchronous FULL/NORMAL/EXTRA/OFF; "
                  "one evaluation = one (transaction, k, torn) crash. Non-trivial = killed after the first write to the database file and not after the last journal operation, with a journal carrying the magic left behind "
                  "(database pages already overwritten, recovery pending). Distinct = fingerprint of (spec, k, torn)."),
         "assumptions": ["system libsqlite3 (3.40.1) is writer and recovery reference", "LD_PRELOAD interposition sees every file operation of the writer (checked: the uninterrupted run's log is non-empty and the kill happens at each k)"],
         "min_nontrivial": {"quick": 60, "thorough": 2000},
-        "required_classes": ["crash:DELETE", "crash:TRUNCATE", "crash:PERSIST", "journal-left:magic", "journal-left:absent", "sqlittle-read", "sqlittle-refused", "sector:4096", "sector:512"],
+        "required_classes": ["crash:DELETE", "crash:TRUNCATE", "crash:PERSIST", "journal-left:magic", "journal-left:absent", "sqlittle-read", "sqlittle-refused", "sector:4096", "sector:512", "synchronous:OFF", "synchronous:FULL"],
         "timeout": {"quick": 400, "thorough": 2400},
         "jobs": [
             job("crash", "c09", ["TestC09Crash"], 4, 60, 4, 12),
@@ -380,7 +381,7 @@ CHECKS = {
         "level": "exploration",
         "tools": ["lockprobe"],
         "manifest": {
-            "technique": "property-based differential testing of the database/sql driver against the native API, under the race detector: rapid-generated SQLite-written databases x generated SELECT statements (`*` anywhere in the list, column lists with rowid spellings and duplicates, unknown table/column, non-SELECT and malformed text) x consumption plans (read all, Close after k rows, cancel after k rows, cancel from another goroutine after a generated number of scheduler yields, a page overwritten with 0xFF or the file truncated before the scan, a prepared statement executed twice, optionally with an ALTER TABLE ADD/RENAME/DROP COLUMN by SQLite between the executions)",
+            "technique": "property-based differential testing of the database/sql driver against the native API, under the race detector: rapid-generated SQLite-written databases x generated SELECT statements (`*` anywhere in the list, column lists with rowid spellings and duplicates, unknown table/column, non-SELECT and malformed text) x consumption plans (read all, Close after k rows, cancel after k rows, cancel from another goroutine after a generated number of scheduler yields, a page overwritten with 0xFF or the file truncated before the scan, a prepared statement executed twice, optionally with an ALTER TABLE ADD/RENAME/DROP COLUMN by SQLite between the executions, two result sets open at once on one transaction / sql.Conn)",
             "level_text": "Generated (database, query, plan) triples; oracle: rows equal the native Select with `*` expanded to Columns() in definition order; whenever the native call fails an error surfaces through Query, Scan or rows.Err (a short result with a nil error is the violation); after Close/cancel rows.Close returns, no producer goroutine remains (stack dump, polled up to 5 s) and an out-of-process probe sees no lock of ours. Built with -race. Schedules of the cancel/producer race are sampled by the Go scheduler, not enumerated.",
             "level_note": "Corruption is applied to the file before the query (pages other than the first), so 'mid-scan' means pages the scan reaches later. Column names are compared case-insensitively.",
         },
@@ -388,7 +389,7 @@ CHECKS = {
                  "(a plan other than 'all', a bad query, or rows). Distinct = fingerprint of the spec."),
         "assumptions": ["system libsqlite3 (3.40.1) writes the databases"],
         "min_nontrivial": {"quick": 150, "thorough": 3000},
-        "required_classes": ["plan:all", "plan:close", "plan:cancel", "plan:cancel-async", "plan:corrupt", "plan:truncate", "plan:prepared", "plan:prepared-alter", "bad:table", "bad:column", "bad:not-select", "star=true", "rows<=1000"],
+        "required_classes": ["plan:all", "plan:close", "plan:cancel", "plan:cancel-async", "plan:corrupt", "plan:truncate", "plan:prepared", "plan:prepared-alter", "plan:nested", "bad:table", "bad:column", "bad:not-select", "star=true", "rows<=1000"],
         "timeout": {"quick": 500, "thorough": 2400},
         "jobs": [
             job("driver", "c19", ["TestC19Driver"], 200, 3000, 3, 10, race=True),
